@@ -423,9 +423,63 @@ def gen_history(rng, faults: bool) -> Dict[str, Any]:
     broken_at = rng.randrange(nops) if rng.random() < 0.25 else -1
     family_at = rng.randrange(nops) if rng.random() < 0.15 else -1
     override_at = rng.randrange(nops) if rng.random() < 0.12 else -1
+    scalars_at = rng.randrange(nops) if rng.random() < 0.12 else -1
+    slices_at = rng.randrange(nops) if rng.random() < 0.18 else -1
     adaptive_at = rng.randrange(nops) if rng.random() < 0.12 else -1
     ngen = 0
     for k in range(nops):
+        if k == scalars_at:
+            # one compiled query with a scalar-only filter (no function, no root query) applied to a
+            # LONG array of numbers, then to values that are Python-equal to some of them but not the
+            # same JSON value (true/false vs 1/0, 1.0 vs 1): what is remembered per value must be
+            # remembered per JSON value
+            q = rng.choice(("$[?@ == 1]", "$[?@ != 0]", "$[?@ >= 1]", "$[?@ == true]", "$[?@ == false || @ == 2]", "$.a[?@ == 1]", "$..[?@ == 0]", "$[?@ < 1 && @ > -1]", "$[?@ == 1.0]", "$[?@ != true]"))
+            n = rng.choice((24, 25, 30, 64, 100))
+            long_ = [rng.choice((0, 1, 2, 1.0, 0.0, 3)) for _ in range(n)]
+            if rng.random() < 0.4:
+                long_ = [rng.choice((True, False, 2)) for _ in range(n)]
+            short = [True, 1, 1.0, False, 0, 0.0, -0.0, 2, "1", None][: rng.randint(4, 10)]
+            rng.shuffle(short)
+            ids = []
+            for tree in (long_, short, {"a": long_, "b": True}, {"a": short, "b": 1}):
+                did = f"d{len(docs)}"
+                ops.append({"op": "new_doc", "id": did, "spec": {"json": tree}})
+                docs.append(did)
+                ids.append(did)
+            cid = f"c{len(compiled)}"
+            ops.append({"op": "compile", "id": cid, "env": rng.choice(envs), "q": q})
+            compiled.append(cid)
+            order = [rng.choice(ids) for _ in range(rng.choice((3, 4, 6)))]
+            for did in order:
+                ops.append({"op": "apply", "c": cid, "doc": did, "entry": rng.choice(("find", "find", "finditer"))})
+            continue
+        if k == slices_at:
+            # one compiled query with an explicit slice (every sign of start, stop and step) applied in
+            # turn to arrays whose lengths lie around its bounds -- alone and as rows of one document:
+            # what a selector worked out for one array length must not be used for another
+            a, b = rng.randint(-5, 6), rng.randint(-5, 6)
+            st = rng.choice((-3, -2, -1, -1, 1, 2))
+            if rng.random() < 0.4:
+                # (a backwards slice between two explicit non-negative bounds)
+                a, b, st = rng.randint(2, 6), rng.randint(0, 2), rng.choice((-1, -1, -2))
+            sl = rng.choice((f"{a}:{b}:{st}", f"{a}:{b}:{st}", f"{a}::{st}", f":{b}:{st}", f"{a}:{b}"))
+            q = rng.choice(("$[%s]", "$[*][%s]", "$..[%s]", "$.a[%s]")) % sl
+            lens = sorted({max(0, abs(a) + d) for d in (-1, 0, 1, 2)} | {max(0, abs(b) + d) for d in (-1, 0, 1)} | {0, 7})
+            rng.shuffle(lens)
+            lens = lens[: rng.choice((3, 4, 6))]
+            rows = [[f"r{n}e{i}" for i in range(n)] for n in lens]
+            ids = []
+            for tree in rows[:3] + [rows, {"a": rows[0], "b": rows[-1]}]:
+                did = f"d{len(docs)}"
+                ops.append({"op": "new_doc", "id": did, "spec": {"json": tree}})
+                docs.append(did)
+                ids.append(did)
+            cid = f"c{len(compiled)}"
+            ops.append({"op": "compile", "id": cid, "env": rng.choice(envs), "q": q})
+            compiled.append(cid)
+            for _ in range(rng.choice((3, 5, 7))):
+                ops.append({"op": "apply", "c": cid, "doc": rng.choice(ids), "entry": rng.choice(("find", "find", "finditer"))})
+            continue
         if k == override_at:
             # a plain environment uses a standard function, THEN replaces that function's name on
             # itself (its own earlier queries change meaning by design and are not judged any more):
